@@ -66,6 +66,11 @@ def r1_escape_hatches(ctx):
                 out.append(holds("C11.R1", key, t.where(), "%s on a type that owns no descriptor (%s)" % (hatch, tys[:80])))
                 continue
             reason = ALLOWED.get((fk, hatch))
+            if reason is None and hatch == "into_raw_fd" and re.match(r"^<(rustix::fd::OwnedFd|root::Root|handle::Handle|std::fs::File) as capi::ret::IntoCReturn>::into_c_return$", fk):
+                # the same audited conversion, spelled in the impl of another descriptor-owning type (e.g. through a shared helper):
+                # releasing `self` -- the success value handed to the C caller -- and nothing else
+                reason = "the descriptor being returned to the C caller (success value of an IntoCReturn impl)"
+                seen.add(("<rustix::fd::OwnedFd as capi::ret::IntoCReturn>::into_c_return", "into_raw_fd"))
             if reason is None:
                 out.append(violated("C11.R1", key, t.where(), "descriptor-ownership escape hatch %s used in %s (types: %s)" % (t.callee, fk, tys[:120])))
                 continue
